@@ -84,6 +84,7 @@ type Interp struct {
 	clock    int64
 	inStub   int
 	panicStack []string
+	errStack []string
 	goCount  int
 	observes []string
 	initMode int // >0 while running a package initialiser (tolerant)
@@ -116,6 +117,7 @@ func (in *Interp) resetPath(prefix []Decision) {
 	in.clock = 0
 	in.inStub = 0
 	in.panicStack = nil
+	in.errStack = nil
 	in.goCount = 0
 	in.observes = in.observes[:0]
 	in.globals = map[*ssa.Global]*Value{}
@@ -622,6 +624,10 @@ func (in *Interp) runFrame(fr *frame) {
 		}
 		r := recover()
 		if _, isT := r.(targetPanic); !isT {
+			if in.errStack == nil {
+				in.curFrame = fr
+				in.errStack = in.stack()
+			}
 			panic(r) // engine-level outcome: propagate
 		}
 		fr.panicking = true
